@@ -20,6 +20,7 @@ import (
 	"net/http/httptest"
 	"net/url"
 	"strings"
+	"sync"
 	"time"
 
 	apifu "github.com/ccbrown/api-fu"
@@ -151,11 +152,34 @@ func apiRoutes(c *Case, direct Observed) (problems []string) {
 	for _, t := range w.extra {
 		cfg.AddNamedType(t)
 	}
+	// the same field as a SUBSCRIPTION: the subscribe phase and every event execution coerce the
+	// arguments again, each from the client's variable values (seeded change C05-26)
+	var subMu sync.Mutex
+	var subArgs, evArgs []hx.Sexp
+	subscribable := p.nest == 0 && !p.multi
+	if subscribable {
+		cfg.AddSubscription("f", &graphql.FieldDefinition{Type: graphql.StringType, Arguments: w.fDef.Arguments,
+			Resolve: func(ctx graphql.FieldContext) (interface{}, error) {
+				subMu.Lock()
+				defer subMu.Unlock()
+				if ctx.IsSubscribe {
+					subArgs = append(subArgs, dumpArgs(ctx.Arguments))
+					ch := make(chan int, 2)
+					ch <- 1
+					ch <- 2
+					close(ch)
+					return &apifu.SubscriptionSourceStream{EventChannel: ch, Stop: func() {}}, nil
+				}
+				evArgs = append(evArgs, dumpArgs(ctx.Arguments))
+				return "event", nil
+			}})
+	}
 	api, err := apifu.NewAPI(cfg)
 	if err != nil {
 		return []string{"apifu.NewAPI rejects the configuration: " + err.Error()}
 	}
 	query, variables := p.queryText(), p.variablesText()
+	subQuery := "subscription" + strings.TrimPrefix(query, "query")
 	// sometimes leave the empty variables object out altogether
 	withVariables := len(p.raw) > 0 || pickShare(query+"|omit", 2)
 	// the decoy: the same operation with a value for every declared variable
@@ -246,6 +270,33 @@ func apiRoutes(c *Case, direct Observed) (problems []string) {
 					return "operation: " + err.Error()
 				}
 				judge(kind+" (second operation on the connection)", he, "")
+				if subscribable {
+					// ---- the field as a subscription with two events, third operation on the connection
+					subMu.Lock()
+					subArgs, evArgs = nil, nil
+					subMu.Unlock()
+					she, err := wsOperation(conn, kind, "sub", payloadJSON(subQuery, variables, withVariables))
+					if err != nil {
+						return "subscription: " + err.Error()
+					}
+					subMu.Lock()
+					sa, ea := subArgs, evArgs
+					subMu.Unlock()
+					route := kind + " subscription (two events)"
+					if direct.Class == "ok" {
+						bad := she || len(sa) != 1 || len(ea) != 2
+						for _, x := range append(append([]hx.Sexp{}, sa...), ea...) {
+							if x.String() != direct.Args {
+								bad = true
+							}
+						}
+						if bad {
+							problems = append(problems, fmt.Sprintf("%s: subscribe phase observed %v, the event executions observed %v (errors reported: %v); the direct run of the same field %s", route, sa, ea, she, direct.Args))
+						}
+					} else if len(sa) != 0 || len(ea) != 0 || !she {
+						problems = append(problems, fmt.Sprintf("%s: the direct run is %s, but here the subscribe phase observed %v, the events %v (errors reported: %v)", route, direct.Class, sa, ea, she))
+					}
+				}
 				return ""
 			}()
 			if note != "" {
